@@ -49,11 +49,11 @@ BAD_OPT_VALUES = [{'raw': 'x'}, {'raw': 1}, {'trivia': 'zz'}, {'trivia': ('all',
 ERR_WEIGHTS = {'unparsable': 3, 'wrongcat': 5, 'wrongcat-ast': 3, 'wrongcat-fst': 3, 'arglike': 4, 'index': 1.5, 'optname': 0.5,
                'optvalue': 1, 'consumed': 1, 'nonroot': 0.7, 'nonroot-self': 1, 'ownroot': 0.7, 'undeletable': 2.5,
                'to-nonraw': 1, 'one-false': 1, 'raw-unparsable': 1, 'raw-wrongcat': 2, 'badarg': 0.4, 'vslice': 5,
-               'put_src': 2.5, 'root': 1.5, 'delete-field': 2, 'optvalue-stmt': 3, 'valid-any': 6, 'raw-any': 4, 'prim': 3}
+               'put_src': 2.5, 'root': 1.5, 'delete-field': 2, 'optvalue-stmt': 3, 'valid-any': 6, 'raw-any': 4, 'prim': 3, 'trivia': 3}
 
 ERR_KINDS = ['unparsable', 'wrongcat', 'wrongcat-ast', 'wrongcat-fst', 'arglike', 'index', 'optname', 'optvalue',
              'consumed', 'nonroot', 'nonroot-self', 'ownroot', 'undeletable', 'to-nonraw', 'one-false', 'raw-unparsable',
-             'raw-wrongcat', 'badarg', 'vslice', 'put_src', 'root', 'delete-field', 'optvalue-stmt', 'valid-any', 'raw-any', 'prim']
+             'raw-wrongcat', 'badarg', 'vslice', 'put_src', 'root', 'delete-field', 'optvalue-stmt', 'valid-any', 'raw-any', 'prim', 'trivia']
 
 
 def nodes_of(root):
@@ -167,6 +167,11 @@ def execute(root, req):
         return None
     if op == 'unpar':
         return f.unpar(**req['kw'])
+    if op == 'put_line_comment':
+        kw = {k: req[k] for k in ('field', 'full') if k in req}
+        return f.put_line_comment(req['comment'], **kw)
+    if op == 'put_docstr':
+        return f.put_docstr(req['text'])
     if op == 'delslice':
         del getattr(f, field)[req['start']:req['stop']]
         return None
@@ -402,6 +407,10 @@ def _vslice_req(rng, nodes):
     return _slice_req(rng, i, f, fld, src, 'vslice')
 
 
+CUT_OPTS = [{'trivia': False}, {'norm': True}, {'pars': False}, {'norm_get': True}, {'set_norm': 'call'}]
+ARGS_AS_OPTS = [{'args_as': v} for v in ('pos', 'arg', 'kw', 'arg_only', 'kw_only', 'pos_maybe', 'arg_maybe', 'kw_maybe')]
+
+
 def _slice_delete_reqs(i, f, fld, errkind='slice-delete'):
     """deletes of sub-ranges of a slice field, the whole range included, through every entry point that can delete"""
     n = _flen(f, fld)
@@ -411,6 +420,10 @@ def _slice_delete_reqs(i, f, fld, errkind='slice-delete'):
         base = {'errkind': errkind, 'node': i, 'field': fld}
         out.append({**base, 'op': 'put_slice', 'start': a, 'stop': b, 'code': {'k': 'none'}, 'one': False})
         out.append({**base, 'op': 'get_slice', 'start': a, 'stop': b})
+        for o in (CUT_OPTS + (ARGS_AS_OPTS if isinstance(f.a, ast.arguments) else [])) if (a, b) in ((0, n), (0, 1)) else ():
+            # the cut with VALID values of the options that steer what is returned: a refusal of the requested form must
+            # come before the cut
+            out.append({**base, 'op': 'get_slice', 'start': a, 'stop': b, 'opts': o})
         out.append({**base, 'op': 'put', 'idx': a, 'stop': b, 'code': {'k': 'none'}, 'one': False})
         if b != 'end':
             out.append({**base, 'op': 'delslice', 'start': a, 'stop': b})
@@ -520,6 +533,29 @@ SMALL_CATEGORIES = ('alias', 'arg', 'keyword', 'withitem', 'comprehension', 'Exc
 RAW_CODES = ['1  # ', '"s"  # x', 'None #', 'c12v #', '1', "'s'", 'b"x"', '...', 'a.b', '(c12v', 'c12v)', '[', 'lambda:', 'x if',
              '1 if 2 else', 'not', '-', 'c12v  \\', '# only comment', 'c12v', '1.5', 'True', '(1, 2)', '[a]', 'a or b', 'x = 1', 'pass',
              'global g', '*s', '**k', 'k=1', 'f(', "f'", 'a, b', 'await x', '1 #\n', '2  # ) ]', "'''"]
+
+
+COMMENT_TEXTS = ['note', '# note', '', 'a\nb', 'a\rb', 'a\r\nb', 'note\rimport os', 'x\x0cy', 'a\0b', 'caf\u00e9 \u65e5', 'a # b', '\\',
+                 'trailing backslash \\', 'q' * 3, 1, None]
+DOCSTR_TEXTS = ['doc', 'a\nb', "'''", 'back\\slash', '\\', 'a\rb', 'a\0b', '', None, 1]
+
+
+def _trivia_reqs(nodes, i):
+    """edits that by contract change only trivia / one string (line comments, docstrings), with acceptable and with
+    impossible text (line terminators - the tokenizer ends a line at a lone CR too -, NUL, non-strings)"""
+    f = nodes[i]
+    out = []
+    if isinstance(f.a, ast.stmt):
+        for c in COMMENT_TEXTS:
+            for full in (False, True):
+                out.append({'errkind': 'trivia', 'op': 'put_line_comment', 'node': i, 'comment': c, 'full': full})
+            for fld in ('orelse', 'finalbody'):
+                if getattr(f.a, fld, None):
+                    out.append({'errkind': 'trivia', 'op': 'put_line_comment', 'node': i, 'comment': c, 'field': fld})
+    if isinstance(f.a, (ast.FunctionDef, ast.AsyncFunctionDef, ast.ClassDef, ast.Module)):
+        for t in DOCSTR_TEXTS:
+            out.append({'errkind': 'trivia', 'op': 'put_docstr', 'node': i, 'text': t})
+    return out
 
 
 PRIM_VALUES = [0, 1, True, False, 2, -1, None, 'u', '', 'c12v', 1.5, 'r', 115, 'not an identifier', '_', '*']
@@ -792,6 +828,9 @@ def systematic(rng, root, nodes, cap):
             if key not in seen_cls:
                 seen_cls.add(key)
                 first.extend(_prim_reqs(nodes, i))
+        if cap >= 50 and ('trivia', f.a.__class__) not in seen_cls:
+            seen_cls.add(('trivia', f.a.__class__))
+            first.extend(_trivia_reqs(nodes, i))
         for fld in _virtual_fields(f.a):
             first.extend(_slice_delete_reqs(i, f, fld))
         if f.parent is not None and category(f.a) in SMALL_CATEGORIES:
@@ -838,6 +877,9 @@ def gen_invalid(rng, root, nodes, errkind=None):
         return _delete_field_req(rng, nodes)
     if kind == 'optvalue-stmt':
         return _optvalue_stmt_req(rng, nodes)
+    if kind == 'trivia':
+        reqs = _trivia_reqs(nodes, rng.randrange(len(nodes)))
+        return rng.choice(reqs) if reqs else None
     if kind == 'prim':
         reqs = _prim_reqs(nodes, rng.randrange(len(nodes)))
         return rng.choice(reqs) if reqs else None
@@ -1152,7 +1194,7 @@ def target_sig(root, req):
     try:
         nodes = nodes_of(root)
         f = nodes[req['node']]
-        if req['op'] in ('replace', 'remove', 'unpar', 'put_src', 'reparse', 'cut'):
+        if req['op'] in ('replace', 'remove', 'unpar', 'put_src', 'reparse', 'cut', 'put_line_comment', 'put_docstr'):
             p = f.parent
             return f"{req['op']}|{p.a.__class__.__name__ if p else 'root:' + f.a.__class__.__name__}.{f.pfield.name if p else ''}"
         return f"{req['op']}|{f.a.__class__.__name__}.{req.get('field')}"
@@ -1160,7 +1202,7 @@ def target_sig(root, req):
         return f"{req.get('op')}|?"
 
 
-ONE_OPS = ('replace', 'remove', 'put', 'setattr', 'delattr', 'setitem', 'delitem', 'unpar', 'cut')
+ONE_OPS = ('replace', 'remove', 'put', 'setattr', 'delattr', 'setitem', 'delitem', 'unpar', 'cut', 'put_line_comment', 'put_docstr')
 
 
 def raise_site(exc):
@@ -1337,6 +1379,20 @@ def _one_call(out, spec, root, req, rng, applied, step):
         return 'raised-ok'
     out.d['n_ok'] += 1
     out.tally('succeeded_requests', req['errkind'])
+    if req['op'] == 'put_line_comment' and cur['mode'] == 'exec' and isinstance(root.a, ast.Module):
+        # contract of the API: only a comment changes.  CPython is the judge: the new source must parse to the same
+        # tree (without positions) as the old one and the live tree must equal that parse; otherwise an impossible
+        # request (text that is not one comment) was accepted and spliced in instead of being refused
+        try:
+            new_dump = ast.dump(ast.parse(root.src))
+        except SyntaxError as e2:
+            new_dump = f'SyntaxError: {e2}'
+        if new_dump != ast.dump(ast.parse(cur['src'])) or util.tree_equals_parse(root):
+            out.d['fails'].append((f'C12|not-refused|{req["op"]}|tree-no-longer-its-source',
+                                   f'{req["op"]}({req["comment"]!r}) was accepted although the text cannot be one line comment: '
+                                   f'the source now parses to a different tree than the live one (request must be refused, tree untouched)',
+                                   {'src': cur['src'], 'mode': cur['mode'], 'failing': req, 'after_src': root.src, 'prefix': list(applied)}))
+            return 'ok-stop'
     if reg:
         out.d['fails'].append((f'C12|registry-stale-after-success|{tsig}|{req["errkind"]}',
                                f'_MODIFYING not empty after a successful {req["op"]}',
